@@ -4,6 +4,7 @@ pub mod echo;
 pub mod edit;
 pub mod enc;
 pub mod esc;
+pub mod full;
 pub mod h5;
 pub mod hash;
 pub mod nsprobe;
@@ -29,6 +30,7 @@ pub fn find(name: &str) -> Option<LaneFn> {
         "edit" => edit::run,
         "enc" => enc::run,
         "esc" => esc::run,
+        "full" => full::run,
         "h5" => h5::run,
         "hash" => hash::run,
         "nsprobe" => nsprobe::run,
